@@ -182,7 +182,7 @@ def dict_child_assign(I, args, kwargs, node):
     good = z3.If(z3.And(old_node.t != I.V.none_const(Abs("Node")), isd),
                  z3.Exists([q], z3.And(0 <= q, q < ks.nz(), val_term(I, o) == _dget(old_value.t, z3.Select(ks.arr, q)), nt == z3.Select(vals.arr, q))),
                  nt == I.V.none_const(Abs("Node")))
-    I.oblige("call-pre", f"child-gets-the-node-of-its-own-key@{getattr(node, 'lineno', '?')} [C11,C10,C03,C02]", good)
+    I.oblige("call-pre", f"child-gets-the-node-of-its-own-key@{getattr(node, "lineno", "?")} [C11,C10,C03,C02,C16]", good)
     g = abstract_assign(I, args, kwargs, node)
     eqf = z3.Function("eq_Val", sort_of(VAL), sort_of(VAL), sort_of(VAL))
     tr = z3.Function("truthy_Val", sort_of(VAL), z3.BoolSort())
@@ -228,12 +228,17 @@ contract(
         # C02: the recorded dict has exactly the new keys, in the new order, with values equal to the new values
         "result-has-the-new-keys-in-order [C02]": "ifdef(['k3'], len(assoc(ret)) == len(dkeys(new_value)) and all(assoc(ret)[i][0] == dkeys(new_value)[i] for i in range(0, len(dkeys(new_value)))))",
         "result-values-equal-the-new-values [C02]": "ifdef(['k3'], all(T(eq(assoc(ret)[i][1], dget(new_value, dkeys(new_value)[i]))) for i in range(0, len(dkeys(new_value)))))",
+        # C05/C02: a display whose entries do not correspond one to one to the entries of the value it evaluates to (a repeated key)
+        # cannot be edited entry by entry - keys would be paired with the wrong value nodes: it is replaced as a whole
+        "display-not-matching-the-value-is-only-replaced-as-a-whole [C05,C02,C11]": "implies(old_node is not None and isinstance_node(old_node, 'Dict')"
+            " and all(old_node.keys[j] is not None for j in range(0, len(old_node.keys))) and len(dkeys(old_value)) != len(old_node.keys),"
+            " all(same(trace[j].node, old_node) for j in range(0, len(trace))))",
         # C10: "containers holding star-expressions are never altered by any category"
         "star-container-is-frozen [C10]": "implies(old_node is not None and isinstance_node(old_node, 'Dict')"
             " and any(old_node.keys[j] is None for j in range(0, len(old_node.keys))), same(ret, old_value) and len(trace) == 0)",
     },
     raises={"AssertionError": {"only-the-key-order-sanity-check [C18]": "True"}},
-    ghost={"props": ["C11", "C10", "C03"], "assoc_dict_ty": "Tuple[Val,Val]", "none_list_ty": "Node", "locals": {"to_insert": "List[Tuple[Val,Val]]"},
+    ghost={"props": ["C11", "C10", "C03", "C16"], "assoc_dict_ty": "Tuple[Val,Val]", "none_list_ty": "Node", "locals": {"to_insert": "List[Tuple[Val,Val]]"},
            "untracked": ["new_code", "node_value"], "light_feasibility": True},
     safety_props=["C18"],
     assumes=["PS5", "E1", "X3"],
@@ -365,16 +370,23 @@ def p_arguments(I, args, kwargs, node):
 
 
 def pat_map_pos(I, n, env):
-    """[adapter_map(arg.value, map_function) for arg in new_args]: every positional argument goes through adapter_map (PS2)"""
-    I.ghost["mapped_all_positional"] = True
+    """[adapter_map(arg.value, map_function) for arg in new_args]: every positional argument goes through adapter_map (PS2);
+    with an added `if` filter not every one does"""
+    I.ghost["mapped_all_positional"] = not I.V.pattern_filtered
     return Opaque("mapped positional")
+
+
+pat_map_pos.accepts_filter = True
 
 
 def pat_map_kw(I, n, env):
     """{k: adapter_map(kwarg.value, map_function) for k, kwarg in new_kwargs.items()}: every keyword argument -- including the
     ones equal to their default -- goes through adapter_map"""
-    I.ghost["mapped_all_keywords"] = True
+    I.ghost["mapped_all_keywords"] = not I.V.pattern_filtered
     return Opaque("mapped keywords")
+
+
+pat_map_kw.accepts_filter = True
 
 
 def p_type_call(I, *a):
@@ -398,7 +410,7 @@ contract(
     ensures={
         # C10: UndecidedValue wraps Is()/nested snapshots by mapping map_unmanaged over *every* argument of a constructor call;
         # an argument that is skipped (e.g. because it equals its default) loses its Unmanaged wrapper and gets rewritten
-        "every-argument-is-mapped [C10,C06]": "mapped_all_positional and mapped_all_keywords and rebuilt",
+        "every-argument-is-mapped [C10,C06,C07,C14]": "mapped_all_positional and mapped_all_keywords and rebuilt",
     },
     safety_props=["C18"],
     assumes=["PS2"],
@@ -412,8 +424,11 @@ from pyvc.defaults import SHAPES as _SHAPES
 
 def pat_map_elements(I, n, env):
     """[adapter_map(v, map_function) for v in value]: every element goes through adapter_map (PS2)"""
-    I.ghost["mapped_all_elements"] = True
+    I.ghost["mapped_all_elements"] = not I.V.pattern_filtered
     return Opaque("mapped elements")
+
+
+pat_map_elements.accepts_filter = True
 
 
 def _seq_cls(I):
@@ -448,10 +463,13 @@ contract(
 
 def pat_map_dict(I, n, env):
     """{k: adapter_map(v, map_function) for k, v in value.items()}: a new dict with every value mapped (PS2)"""
-    I.ghost["mapped_all_elements"] = True
+    I.ghost["mapped_all_elements"] = not I.V.pattern_filtered
     o = _O2("new-container", {})
     I.ghost["new_container"] = o
     return o
+
+
+pat_map_dict.accepts_filter = True
 
 
 contract(
@@ -465,3 +483,104 @@ contract(
     safety_props=["C18"],
     assumes=["PS2"],
 )
+
+# ---------------------------------------------------------------------------------------------- DictAdapter.items / SequenceAdapter.items
+
+
+def dict_values(I, args, kwargs, node):
+    d = args[0]
+    l = _keys(I, d)
+    vals = fresh_value(I.ctx, parse_ty("List[Val]"), "values")
+    i = z3.Int(I.ctx.fresh_name("vi"))
+    I.ctx.assume(vals.nz() == l.nz())
+    I.ctx.assume(z3.ForAll([i], z3.Implies(z3.And(0 <= i, i < l.nz()), z3.Select(vals.arr, i) == _dget(d.t, z3.Select(l.arr, i))), patterns=[z3.Select(vals.arr, i)]), tag="values")
+    return vals
+
+
+DEFAULT_POLICIES["attrs"].update({"DictV.values": dict_values})
+
+
+def pat_items_without_nodes(I, n, env):
+    """[Item(value=value, node=None) for value in value.values()] / [Item(value=v, node=None) for v in value]: one item per element,
+    in order, without nodes (list-comprehension semantics, PS2)"""
+    src = I.eval(n.generators[0].iter, env)
+    items = fresh_value(I.ctx, parse_ty("List[Item]"), "items_without_nodes")
+    IT = sort_of(parse_ty("Item"))
+    mk = IT.constructor(0)
+    i = z3.Int(I.ctx.fresh_name("wi"))
+    I.ctx.assume(items.nz() == src.nz())
+    I.ctx.assume(z3.ForAll([i], z3.Implies(z3.And(0 <= i, i < src.nz()), z3.Select(items.arr, i) == mk(z3.Select(src.arr, i), I.V.none_const(Abs("Node")))),
+                           patterns=[z3.Select(items.arr, i)]), tag="items")
+    return items
+
+
+def p_item_ctor(I, args, kwargs, node):
+    """Item(value=..., node=...) as a value record"""
+    v, nd = kwargs.get("value", args[0] if args else None), kwargs.get("node", args[1] if len(args) > 1 else None)
+    nt = nd.t if isinstance(nd, SV) else I.V.none_const(Abs("Node"))
+    return Obj("Item", {"value": SV(val_term(I, v), VAL), "node": SV(nt, Abs("Node"))}, rec=parse_ty("Item"))
+
+
+ITEMS_VALUES = "len(ret) == len(dkeys(value)) and all(same(ret[j].value, dget(value, dkeys(value)[j])) for j in range(0, len(ret)))"
+
+contract(
+    DA + ".DictAdapter.items",
+    params={"cls": "Opaque", "value": "DictV", "node": "Node"},
+    callees={"ast.literal_eval": p_literal_eval, "Item": p_item_ctor, "inline_snapshot._adapter.adapter.Item": p_item_ctor},
+    extern_patterns={"[Item(value=value, node=None) for value in value.values()]": pat_items_without_nodes},
+    requires={"denotes": "implies(node is not None and isinstance_node(node, 'Dict'), len(node.values) == len(node.keys) and len(node.keys) == len(dkeys(value)))"},
+    returns=None,
+    result_name="ret",
+    loops={0: Loop(index="k", ghost_modifies=[], inv={
+        "one-item-per-entry-so-far": "len(result) == k and all(same(result[j].value, dget(value, dkeys(value)[j])) and same(result[j].node, node.values[j]) for j in range(0, k))"})},
+    ensures={
+        # C06/C14/C10: _re_eval refreshes Is(...) / nested snapshots through these items on every evaluation, _get_changes finds the
+        # editable nodes through them: every entry of the value has its item, whether or not the argument is a dict display
+        "one-item-per-entry-in-order [C06,C14,C10,C11]": ITEMS_VALUES,
+        "nodes-of-a-display-by-position [C11,C10,C03]": "implies(node is not None and isinstance_node(node, 'Dict'), all(same(ret[j].node, node.values[j]) for j in range(0, len(ret))))",
+        "no-nodes-without-a-display [C18,C03]": "implies(node is None or not isinstance_node(node, 'Dict'), all(ret[j].node is None for j in range(0, len(ret))))",
+    },
+    raises={"AssertionError": {"only-the-key-order-sanity-check [C18]": "True"}},
+    ghost={"locals": {"result": "List[Item]"}, "asserts_raise": True},
+    frame=[],
+    safety_props=["C18"],
+    assumes=["PS5"],
+)
+
+
+def pat_items_with_nodes(I, n, env):
+    """[Item(value=v, node=n) for v, n in zip(value, node.elts)]: element i paired with node i"""
+    value, node = env.lookup("value"), env.lookup("node")
+    elts = I.getattr(node, "elts")
+    items = fresh_value(I.ctx, parse_ty("List[Item]"), "items_with_nodes")
+    mk = sort_of(parse_ty("Item")).constructor(0)
+    i = z3.Int(I.ctx.fresh_name("wi"))
+    n_ = z3.If(value.nz() < elts.nz(), value.nz(), elts.nz())
+    I.ctx.assume(items.nz() == n_)
+    I.ctx.assume(z3.ForAll([i], z3.Implies(z3.And(0 <= i, i < n_), z3.Select(items.arr, i) == mk(z3.Select(value.arr, i), z3.Select(elts.arr, i))),
+                           patterns=[z3.Select(items.arr, i)]), tag="items")
+    return items
+
+
+from pyvc.types import ClassRef as _ClassRef
+
+for cls, nodecls in (("ListAdapter", "List"), ("TupleAdapter", "Tuple")):
+    contract(
+        SA + ".SequenceAdapter.items",
+        name=f"{SA}.SequenceAdapter.items#{cls}",
+        params={"cls": f"@SeqItemsCls{nodecls}", "value": "List[Val]", "node": "Node"},
+        shapes={f"SeqItemsCls{nodecls}": Shape("type", {"node_type": _ClassRef(nodecls, "ast." + nodecls)})},
+        extern_patterns={"[Item(value=v, node=None) for v in value]": pat_items_without_nodes,
+                         "[Item(value=v, node=n) for (v, n) in zip(value, node.elts)]": pat_items_with_nodes},
+        returns=None,
+        result_name="ret",
+        ensures={
+            "one-item-per-element-in-order [C06,C14,C10,C11]": "len(ret) == len(value) and all(same(ret[j].value, value[j]) for j in range(0, len(ret)))",
+            "nodes-of-a-display-by-position [C11,C10,C03]": f"implies(node is not None and isinstance_node(node, '{nodecls}'), all(same(ret[j].node, node.elts[j]) for j in range(0, len(ret))))",
+            "no-nodes-without-a-display [C18,C03]": f"implies(node is None or not isinstance_node(node, '{nodecls}'), all(ret[j].node is None for j in range(0, len(ret))))",
+        },
+        raises={"AssertionError": {"display-and-value-differ-in-length [C18]": f"node is not None and isinstance_node(node, '{nodecls}') and len(value) != len(node.elts)"}},
+        ghost={"asserts_raise": True},
+        frame=[],
+        safety_props=["C18"],
+    )
